@@ -20,11 +20,28 @@ structure Embedding where
   lier : ∀ t, (emb t).lier = t.lier
   verb : ∀ (x : ClauseFr.VT) (f : Str), emb (.v { x with neg2 := none } f) = emb (.v x f)
 
-/-- the guard of `doPronounPlacement`: an already elided pronoun (realization ending with `'`) is not a clitic to
-    pop, whatever its case -/
-theorem elided_clitic_not_popped (x : ClauseFr.ProT) (f : Str) (h : endsWith f ['\''] = true) :
-    ClauseFr.isCliticPro x f = false := by
-  simp [ClauseFr.isCliticPro, h]
+/-- the guard of `doPronounPlacement`, as C05's model mirrors it (`ClauseFr.elidedForm`: since /repo commit c4595d2
+    the FIRST WORD of the realization — `sepWordREC` group 2 — ends with an apostrophe, so a tag or punctuation
+    attached to the pronoun no longer hides it; before, `realization.endswith("'")`): a pronoun recognised as already
+    elided is not a clitic to pop, whatever its case.  This is the link between the code's guard and `PlaceCond.pros`
+    (the popped pronouns can be required to be fresh because the elided ones are never among them). -/
+theorem elided_clitic_not_popped (x : ClauseFr.ProT) (f : Str) (h : ClauseFr.elidedForm f = true) :
+    ClauseFr.isCliticPro x f = false :=
+  ClauseFr.isCliticPro_elided x f h
+
+/-- the same for a realization that is one bare word ending with an apostrophe (`l'`, `m'`, `s'`…), whichever version
+    of the guard the repository has -/
+theorem elided_bare_clitic_not_popped (x : ClauseFr.ProT) (f : Str) (hne : f ≠ [])
+    (hw : ∀ c ∈ f, ClauseFr.isWordCh c = true) (h : endsWith f ['\''] = true) :
+    ClauseFr.isCliticPro x f = false :=
+  elided_clitic_not_popped x f (by rw [ClauseFr.elidedForm_bare f hne hw]; exact h)
+
+/-- every pronoun that `collect` pops passed the guard: it is not recognised as elided -/
+theorem popped_not_elided (l : List ClauseFr.Tok) (x : ClauseFr.ProT) (f : Str)
+    (h : ClauseFr.Tok.pro x f ∈ (ClauseFr.collect l).1) : ClauseFr.elidedForm f = false := by
+  have hc := ClauseFr.collect_fst_clitic l _ h
+  simp only [ClauseFr.Tok.isClitic, ClauseFr.isCliticPro, Bool.and_eq_true, Bool.not_eq_eq_eq_not, Bool.not_true] at hc
+  exact hc.1
 
 /-! ### generic facts about the backward clauses -/
 
